@@ -8,6 +8,8 @@ against the ORIGINAL target).
 
 Oracle: vf.texpr.ref_eval - the same operations applied with the `operator` module.
 """
+import decimal
+
 from hypothesis import strategies as st
 
 import glom
@@ -21,14 +23,20 @@ from .. import texpr as tx
 PROPERTY = 'C02'
 RULE = ('expressions rooted at T with 1-6 operations from {.attr, [item], [slice], (call), + - * / // % ** & | ^, ~, neg}, '
         'generated type-directed against the target by reference evaluation of the prefix; ~20% of steps fail on '
-        'purpose (missing attr/key/index, wrong operand type, zero division, calling a raising function). '
+        'purpose (missing attr/key/index, wrong operand type, zero division, calling a raising function); a constructed '
+        'class (~1 case in 8) fails in an item / arithmetic step with an error class beyond Key/Index/Type/ZeroDivisionError: '
+        'zero-step slices, overflowing ** / * and int/int division, %-formatting failures, Decimal signals. '
         'Non-trivial = >= 3 operations of >= 2 kinds, or first failure at step k >= 1, or a nested T/Spec argument.')
 ASSUMPTIONS = [
     'reference = the same operation sequence applied with the operator module (vf/texpr.py: ref_eval)',
-    'failing *call* steps and exotic exception classes only have their class checked (DESIGN.md section 6)',
+    'a failing item / slice / arithmetic step must surface as PathAccessError with the step\'s position and the very error '
+    'Python raises, whatever its class (statement: "the first operation that fails surfaces as a PathAccessError carrying '
+    'that operation\'s position"); attribute steps: AttributeError; failing *call* steps only have their class checked '
+    '(DESIGN.md section 6)',
     'nested T/Spec arguments are generated so that they themselves succeed',
 ]
-BOUNDS = {'ops': '6 quick / 8 thorough', 'int operands': '1..7', 'exponent': '<= 3'}
+BOUNDS = {'ops': '6 quick / 8 thorough (+ up to 3 for a constructed overflow / formatting failure)', 'int operands': '1..7',
+          'exponent': '<= 3 (1100 / 4000 / 10**10 only where the overflow is the point)'}
 
 
 class Echo(object):
@@ -36,7 +44,7 @@ class Echo(object):
     def __init__(self):
         self.calls = []
 
-    def __call__(self, *a, **kw):
+    def __call__(self, /, *a, **kw):        # (any keyword, self= too)
         self.calls.append((a, kw))
         return (a, kw)
 
@@ -59,7 +67,7 @@ def boom(*a, **kw):
 def make_target(r):
     echo = Echo()
     t = {'n': r['n'], 'm': r['m'], 'xs': list(r['xs']), 'd': dict(r['d']), 's': r['s'], 'f': r['f'],
-         'nil': None, 'echo': echo, 'boom': boom, 'tup': tuple(r['xs'][:2]),
+         'nil': None, 'echo': echo, 'boom': boom, 'tup': tuple(r['xs'][:2]), 'dec': decimal.Decimal(r['n']),
          # a value that happens to be a glom expression: data, to be passed on as it is
          'tmpl': T['n']}
     t['o'] = tg.Obj(a=r['m'], xs=t['xs'], echo=echo, d=t['d'], boom=boom)
@@ -125,13 +133,15 @@ def gen_step(draw, cur, target, fail):
                 return ['[', draw(S([['i', 99], ['s', 'k'], ['i', -99]]))]
             return ['[', ['i', 0]] if not hasattr(cur, '__getitem__') else ['[', ['list', []]]
         if kind == 'arith':
+            if isinstance(cur, decimal.Decimal):
+                return ['bin', draw(S(['+', '*', '-'])), draw(S([['f', 0.5], ['s', 'q'], ['none']]))]
             if isinstance(cur, (int, float)):
                 return ['bin', draw(S(['+', '-', '&', '%'])), ['s', 'q']] if draw(st.booleans()) else ['bin', draw(S(['+', '*', '-'])), ['none']]
             if isinstance(cur, (list, dict, str, tuple)):
                 return draw(S([['bin', '-', ['i', 1]], ['un', 'neg'], ['un', '~'], ['bin', '/', ['i', 2]]]))
             return ['bin', '+', ['i', 1]]
         if kind == 'zero':
-            if isinstance(cur, (int, float)) and not isinstance(cur, bool):
+            if isinstance(cur, (int, float, decimal.Decimal)) and not isinstance(cur, bool):
                 return ['bin', draw(S(['/', '//', '%'])), ['i', 0]]
             return ['un', 'neg'] if not isinstance(cur, (int, float)) else ['bin', '/', ['i', 0]]
         # call
@@ -163,6 +173,13 @@ def gen_step(draw, cur, target, fail):
         if abs(cur) > 10 ** 9:
             return ['bin', '/', ['i', 4]]
         return ['bin', op, ['f', draw(S([0.5, 2.0, 4.0]))]] if op != '//' else ['bin', '//', ['i', 2]]
+    if isinstance(cur, decimal.Decimal):
+        op = draw(S(['+', '-', '*', '//', '%', 'neg']))
+        if op == 'neg':
+            return ['un', 'neg']
+        if abs(cur) > 10 ** 9:
+            op = draw(S(['//', '%']))
+        return ['bin', op, _int_arg(draw, target)]
     if isinstance(cur, str):
         k = draw(st.integers(0, 4))
         if k == 0:
@@ -218,7 +235,7 @@ def gen_step(draw, cur, target, fail):
     if isinstance(cur, Echo):
         n = draw(st.integers(0, 3))
         args = [_lit_for_echo(draw, target) for _ in range(n)]
-        kws = [[kw, _lit_for_echo(draw, target)] for kw in draw(st.lists(S(['p', 'q']), max_size=2, unique=True))]
+        kws = [[kw, _lit_for_echo(draw, target)] for kw in draw(st.lists(S(['p', 'q', 'self']), max_size=2, unique=True))]
         return ['(', args, kws]
     if cur is boom:
         return ['(', [['i', 1]], []]
@@ -246,6 +263,78 @@ ABSENT = ['T', 'T', [['[', ['s', 'absent']], ['[', ['s', 'q']]]]                
 POP = ['T', 'T', [['[', ['s', 'xs']], ['.', 'pop'], ['(', [], []]]]                                  # side effect on the target
 
 
+# ---- failures with an error class beyond the usual ones (F76)
+# The classes item / arithmetic steps raise on everyday data.  Used for LABELLING and for choosing generated steps only: the
+# expectation (PAE_KINDS below) does not depend on the class.
+USUAL = {'item': (KeyError, IndexError, TypeError), 'arith': (TypeError, ZeroDivisionError)}
+HUGE = 10 ** 400            # no float can hold it
+DEC_ZERO = ['T', 'T', [['[', ['s', 'dec']], ['bin', '*', ['i', 0]]]]          # nested argument -> Decimal(0)
+EXOTIC_START = {'slice': ['xs', 'tup', 's'], 'overflow': ['n', 'm', 'f', 'xs', 's', 'tup'], 'format': ['s'],
+                'decimal': ['dec', 'dec', 'n', 'm']}
+
+
+def exotic_candidates(cls, cur, draw):
+    """step lists of which the LAST step is meant to fail on `cur` with an unusual error class (gen keeps one only after the
+    reference confirmed that); the steps before it are valid and prepare the value"""
+    S = st.sampled_from
+    B = lambda op, lit: ['bin', op, lit]
+    if isinstance(cur, bool) or cur is None:
+        return []
+    if cls == 'slice':
+        if isinstance(cur, (list, tuple, str)):
+            return [[['[', ['slice', [draw(S([None, 0, 1, -1])), draw(S([None, 2, -1])), 0]]]]]
+        return []
+    if cls == 'overflow':
+        if isinstance(cur, int):
+            pre = []
+            if abs(cur) < 2:
+                pre = [B('+', ['i', 3])]
+            elif abs(cur) > 10 ** 6:
+                pre = [B('%', ['i', 1000]), B('+', ['i', 2])]
+            return [pre + [B('**', ['i', 1100]), B('/', ['i', 3])],         # int / int: result too large for a float
+                    pre + [B('**', ['f', 4000.5])],
+                    pre + [B('**', ['i', 1100]), B('*', ['f', 0.5])],       # int too large to convert to float
+                    pre + [B('**', ['i', 1100]), B('//', ['f', 2.0])]]
+        if isinstance(cur, float):
+            return [[B('**', ['i', 4000])], [B('**', ['i', -4000])], [B('*', ['i', HUGE])], [B('+', ['i', HUGE])],
+                    [B('//', ['i', HUGE])]]
+        if isinstance(cur, (list, tuple, str)):
+            return [[B('*', ['i', 10 ** 20])]]                             # cannot fit 'int' into an index-sized integer
+        return []
+    if cls == 'format':
+        if isinstance(cur, str) and '%' not in cur:
+            return [[B('+', ['s', '%(a)s']), B('%', ['dict', []])],         # KeyError('a')
+                    [B('+', ['s', '%(n)s']), B('%', ['dict', [[['s', 'm'], ['i', 1]]]])],
+                    [B('+', ['s', '%']), B('%', ['tuple', []])],            # ValueError: incomplete format
+                    [B('+', ['s', '%y']), B('%', ['i', 1])],                # ValueError: unsupported format character
+                    [B('+', ['s', '%c']), B('%', ['i', -1])]]               # OverflowError: %c arg not in range
+        return []
+    if cls == 'decimal':
+        if isinstance(cur, decimal.Decimal):
+            return [[B('%', ['i', 0])],                                     # InvalidOperation
+                    [B('*', ['i', 0]), B('/', ['i', 0])],                   # InvalidOperation (0 / 0: DivisionUndefined)
+                    [B('**', ['i', 10 ** 10])],                             # Overflow
+                    [B('%', DEC_ZERO)]]
+        if isinstance(cur, int):
+            return [[B('%', DEC_ZERO)], [B('%', ['Spec', DEC_ZERO])]]       # int % Decimal(0): InvalidOperation
+        return []
+    return []
+
+
+def exotic_steps(draw, cls, cur, target):
+    cands = exotic_candidates(cls, cur, draw)
+    if not cands:
+        return None
+    i = draw(st.sampled_from(range(len(cands))))
+    for cand in cands[i:] + cands[:i]:
+        try:
+            tx.ref_eval(cur, cand, target)
+        except tx.RefFail as rf:
+            if rf.k == len(cand) - 1 and rf.nested is None and rf.kind in USUAL and not isinstance(rf.exc, USUAL[rf.kind]):
+                return cand
+    return None
+
+
 def trailing_step(draw):
     """steps placed AFTER the first failing operation: they must never be evaluated, so their
     nested arguments may fail or have side effects (echo call, xs.pop())"""
@@ -263,13 +352,24 @@ def trailing_step(draw):
 def gen(draw):
     trec = gen_target(draw)
     target, _ = make_target(trec)
-    start = draw(st.sampled_from(['n', 'n', 'm', 'xs', 'd', 's', 'f', 'o', 'echo', 'nil', 'tup', 'boom']))
+    start = draw(st.sampled_from(['n', 'n', 'm', 'xs', 'd', 's', 'f', 'o', 'echo', 'nil', 'tup', 'boom', 'dec']))
+    # constructed class: the first failure is an item / arithmetic step raising an unusual error class, after `xpos` valid steps
+    exotic = draw(st.sampled_from(['slice', 'overflow', 'format', 'decimal'])) if draw(st.sampled_from(range(10))) == 0 else None
+    if exotic:
+        start = draw(st.sampled_from(EXOTIC_START[exotic]))
+        xpos = draw(st.sampled_from([0, 0, 1, 2]))
     steps = [['[', ['s', start]]]
     cur = target[start]
     nops = draw(st.integers(1, 8 if runner_mod.thorough() else 6))
     failed = False
-    for _ in range(nops):
-        fail = draw(st.integers(0, 99)) < 9 and not failed
+    for i_op in range(nops):
+        if exotic and not failed and (i_op >= xpos or i_op == nops - 1):
+            xs_ = exotic_steps(draw, exotic, cur, target)
+            if xs_:
+                steps.extend(xs_)
+                failed, cur, exotic = True, None, None
+                continue
+        fail = draw(st.integers(0, 99)) < 9 and not failed and not exotic
         stp = None
         if failed and draw(st.booleans()):
             stp = trailing_step(draw)
@@ -277,7 +377,9 @@ def gen(draw):
             if draw(st.sampled_from(range(14))) == 0:
                 # a nested argument that itself fails: the first failing operation is INSIDE the argument
                 bad = draw(st.sampled_from([ABSENT, ['Spec', ABSENT], ['T', 'T', [['[', ['s', 'n']], ['[', ['s', 'q']]]],
-                                            ['T', 'T', [['[', ['s', 'xs']], ['[', ['i', 77]]]]]))
+                                            ['T', 'T', [['[', ['s', 'xs']], ['[', ['i', 77]]]],
+                                            ['T', 'T', [['[', ['s', 'xs']], ['[', ['slice', [None, None, 0]]]]],
+                                            ['Spec', ['T', 'T', [['[', ['s', 'dec']], ['bin', '%', ['i', 0]]]]]]))
                 stp = draw(st.sampled_from([['[', bad], ['bin', '+', bad], ['(', [bad], []], ['(', [], [['p', bad]]]]))
             elif isinstance(cur, dict) and 'k' in cur and draw(st.integers(0, 3)) == 0:
                 stp = ['[', ECHO_K]          # nested argument with an observable side effect
@@ -296,15 +398,20 @@ def gen(draw):
         # a callable of the target called with objects of the target, resolved by nested T / Spec arguments
         own = lambda: ['T', 'T', [['[', ['s', draw(st.sampled_from(['xs', 'd', 'o', 'tmpl']))]]]]
         args = [own() if draw(st.booleans()) else ['Spec', own()] for _ in range(draw(st.integers(1, 2)))]
-        kws = [['p', own()]] if draw(st.booleans()) else []
+        kws = [[draw(st.sampled_from(['p', 'self'])), own()]] if draw(st.booleans()) else []
         steps = [draw(st.sampled_from([[['[', ['s', 'echo']]], [['[', ['s', 'o']], ['.', 'echo']]]))][0] + [['(', args, kws]]
     return {'target': trec, 'steps': steps, 'twin_first': draw(st.sampled_from([False, False, True]))}
 
 
+# "The first operation that fails surfaces as a PathAccessError carrying that operation's position": whatever error the item,
+# slice or arithmetic operation raises on the (builtin / Decimal) value - ValueError for a zero slice step, OverflowError,
+# the KeyError / ValueError of %-formatting, decimal's signals - is carried by a PathAccessError.  An attribute step is an
+# access failure when the attribute is missing (AttributeError; anything else comes from user code behind the attribute);
+# a failing call lets the callee's error through (DESIGN.md section 6).
 PAE_KINDS = {
     'attr': (AttributeError,),
-    'item': (KeyError, IndexError, TypeError),
-    'arith': (TypeError, ZeroDivisionError),
+    'item': (Exception,),
+    'arith': (Exception,),
 }
 
 
@@ -361,7 +468,7 @@ def equalish(a, b):
 
 def twin_lit(r):
     """a literal that is == to r but of another type (1 <-> 1.0, True -> 1), or r itself"""
-    if r[0] == 'i':
+    if r[0] == 'i' and abs(r[1]) < 2 ** 53:
         return ['f', float(r[1])]
     if r[0] == 'f' and r[1] == r[1] and abs(r[1]) < 1e9 and float(r[1]).is_integer():
         return ['i', int(r[1])]
@@ -406,7 +513,14 @@ def check(recipe, ctx):
         exp = ('err', rf.k, rf.exc, rf.kind)
         nested_fail = rf.nested
     gt, gecho = make_target(recipe['target'])
-    spec = tx.build_t('T', steps, gt)
+    if any(s_[0] == '(' and any(kw == 'self' for kw, _ in s_[2]) for s_ in steps):
+        ctx.label('kwarg-self')
+    try:
+        spec = tx.build_t('T', steps, gt)
+    except TypeError as e:
+        # every step recipe is an operation Python accepts on a value (f(self=1) is a valid call of a callee that takes it):
+        # T must be able to record it
+        raise Mismatch('cannot-record', 'steps %r: recording the expression raised TypeError: %s' % (steps, e))
     o_gt = _owned(gt)
     snap = tg.snapshot(gt)
     ctx.label('exp-' + exp[0], 'ops-%d' % min(len(steps), 4))
@@ -458,6 +572,15 @@ def check(recipe, ctx):
     else:
         _, k, E, kind = exp
         ctx.label('fail-' + kind, 'fail-at-%s' % ('0' if k == 0 else 'k>=1'))
+        if kind in USUAL and not isinstance(E, USUAL[kind]):
+            # (which of the constructed classes; a failure inside a nested argument is counted with the step kind it has there)
+            fstep = (nested_fail[1] if nested_fail is not None else steps)[k]
+            ctx.label('fail-unusual-class',
+                      'unusual-decimal-signal' if isinstance(E, decimal.DecimalException) else
+                      'unusual-zero-step-slice' if kind == 'item' and isinstance(E, ValueError) else
+                      'unusual-format' if fstep[0] == 'bin' and fstep[1] == '%' else
+                      'unusual-overflow' if isinstance(E, OverflowError) else 'unusual-other',
+                      'unusual-' + type(E).__name__)
         if err is None:
             raise Mismatch('missing-error', '%s: reference fails at step %d with %r, glom returned %r'
                            % (where, k, E, got))
@@ -522,5 +645,7 @@ def check(recipe, ctx):
 
 SUBS = [
     Sub('replay', check, gen=gen, quick=8000, thorough=20000,
-        floors={'exp-ok': 0.15, 'exp-err': 0.15, 'nested-T-arg': 0.05, 'nested-arg-after-failure': 0.05, 'fail-in-nested-arg': 0.01, 'op//': 0.02, 'fail-at-k>=1': 0.1, 'twin-recorded-first': 0.06, 'argument-identity-checked': 0.02, 'call-of-non-callable': 0.01}),
+        floors={'exp-ok': 0.15, 'exp-err': 0.15, 'nested-T-arg': 0.05, 'nested-arg-after-failure': 0.05, 'fail-in-nested-arg': 0.01, 'op//': 0.02, 'fail-at-k>=1': 0.1, 'twin-recorded-first': 0.06, 'argument-identity-checked': 0.02, 'call-of-non-callable': 0.01,
+                'fail-unusual-class': 0.07, 'unusual-zero-step-slice': 0.03, 'unusual-overflow': 0.012, 'unusual-format': 0.012,
+                'unusual-decimal-signal': 0.015, 'kwarg-self': 0.015}),
 ]
